@@ -493,6 +493,7 @@ PLANS["C04"] = {
 def c05_steps(tier, seed):
     q = tier == "quick"
     return [native("model-histories", ["w_model", "--seed", seed, "--procs", 16, "--ops", 20000 if q else 300000], timeout=600 if q else 3000),
+            native("model-concurrent-owners", ["w_model", "--seed", seed + 3, "--procs", 8, "--threads", 3, "--ops", 15000 if q else 200000], timeout=600 if q else 3000),
             native("restart-under-fire", ["w_reg", "--mode", "stress", "--phase", "none", "--rounds", 10 if q else 100, "--round-ms", 60, "--seed", seed + 9])]
 
 
@@ -522,6 +523,7 @@ def c03_steps(tier, seed):
         native("alloc-watch-registry", ["w_reg", "--mode", "stress", "--phase", "raise", "--rounds", 12 if q else 150, "--round-ms", 80, "--seed", seed + 31]),
         native("alloc-watch-iterators", ["w_iter", "--instances", 9, "--rounds", 25 if q else 300, "--seed", seed + 32], timeout=900),
         native("channel-nested-in-handler", ["w_channel", "--mode", "signal", "--histories", 800 if q else 40000, "--seed", seed + 33, "--heap", 0], also=["C08"]),
+        native("wake-on-full-descriptors", ["w_pipe", "--seed", seed + 34, "--cycles", 200], also=["C13"]),
     ]
     return st
 
